@@ -1,34 +1,32 @@
 --------------------------- MODULE Trace_ObjLife ---------------------------
 (* Ledger readings of harness/h_objs.cpp validated against ObjLife.  Every call must be enabled in ObjLife, and its effect on the heap (blocks and   *)
-(* bytes allocated minus released across the call) must follow the footprint rules: a function of (call, type, n) only; alloc is one block, linear  *)
-(* in n; free = -alloc; destroy = -init; new = alloc + init; delete = -new; init linear in n; no red zone written, no double free; and when a        *)
-(* program ends with all slots empty, nothing it allocated is alive.  The table of footprints is read off the trace itself (it is a constant of     *)
-(* the run); Calibrated demands that every (type, n) the trace uses has been seen through all six calls, so that no rule is vacuous.                *)
+(* bytes allocated minus released across the call) is booked on the slot it acts on.  The account is held to what C16 states and no more: an empty   *)
+(* slot holds nothing (free and delete give back everything acquired on the slot's behalf, however it was acquired); raw memory holds the same every *)
+(* time (destroy gives back what init acquired, so init / destroy cycles do not grow); allocation acquires something; no red zone is written and     *)
+(* nothing is freed twice; a program that ends with all slots empty leaves nothing alive.  How an implementation lays its objects out - one block or  *)
+(* many, with or without padding, new as alloc + init or in one piece - is not constrained.                                                          *)
 EXTENDS ObjLife, Json, IOUtils, Sequences
-VARIABLES l, nwin
+VARIABLES l, nwin, acc, rawf, seen
 Tr == ndJsonDeserialize(IOEnv.TRACE)
 Ev == Tr[l]
-tvars == <<ovars, l, nwin>>
-Calls == {i \in 1..Len(Tr) : Tr[i].e = "Call"}
-Keys == {<<Tr[i].t, Tr[i].n>> : i \in Calls}
+tvars == <<ovars, l, nwin, acc, rawf, seen>>
+Zero2 == <<0, 0>>
 None == <<0, -1>>
-Val(op, t, n) == LET S == {i \in Calls : Tr[i].op = op /\ Tr[i].t = t /\ Tr[i].n = n} IN IF S = {} THEN None ELSE LET i == CHOOSE j \in S : TRUE IN <<Tr[i].dblocks, Tr[i].dbytes>>
-Tab == [k \in Keys |-> [op \in {"alloc", "init", "destroy", "free", "new", "delete"} |-> Val(op, k[1], k[2])]]
-Neg(d) == <<0 - d[1], 0 - d[2]>>
 Plus(a, b) == <<a[1] + b[1], a[2] + b[2]>>
-El(n) == IF n = 0 THEN 1 ELSE n
-Rule(op, t, n, d) == LET v == Tab[<<t, n>>] IN
-    /\ d = v[op]                                                             \* a function of (call, type, n)
-    /\ CASE op = "alloc"   -> d[1] = 1 /\ d[2] > 0 /\ \A k \in Keys : (k[1] = t /\ Tab[k]["alloc"] # None) => d[2] * El(k[2]) = Tab[k]["alloc"][2] * El(n)
-         [] op = "init"    -> d[1] >= 0 /\ d[2] >= 0 /\ \A k \in Keys : (k[1] = t /\ Tab[k]["init"] # None) => (d[2] * El(k[2]) = Tab[k]["init"][2] * El(n) /\ d[1] * El(k[2]) = Tab[k]["init"][1] * El(n))
-         [] op = "destroy" -> d = Neg(v["init"])
-         [] op = "free"    -> d = Neg(v["alloc"])
-         [] op = "new"     -> d = Plus(v["alloc"], v["init"])
-         [] op = "delete"  -> d = Neg(Plus(v["alloc"], v["init"]))
-Calibrated == \A k \in Keys : \A op \in {"alloc", "init", "destroy", "free", "new", "delete"} : Tab[k][op] # None
-TInit == OInit /\ l = 1 /\ nwin = 0
+\* acc[s]: what the process holds on behalf of slot s (blocks, bytes: the sum of the readings of the calls made on it since it was empty);
+\* rawf[s]: what it held the first time the slot was raw memory in this occupancy
+Account(s, op, d) == LET a == Plus(acc[s], d) IN
+    CASE op = "alloc"   -> acc' = [acc EXCEPT ![s] = a] /\ rawf' = [rawf EXCEPT ![s] = a] /\ d[1] >= 1 /\ d[2] >= 1
+      [] op = "new"     -> acc' = [acc EXCEPT ![s] = a] /\ rawf' = rawf /\ d[1] >= 1 /\ d[2] >= 1
+      [] op = "init"    -> acc' = [acc EXCEPT ![s] = a] /\ rawf' = rawf /\ d[1] >= 0 /\ d[2] >= 0
+      \* destroy gives back what init acquired: raw memory holds the same every time (init / destroy cycles do not grow)
+      [] op = "destroy" -> acc' = [acc EXCEPT ![s] = a] /\ (IF rawf[s] = None THEN rawf' = [rawf EXCEPT ![s] = a] ELSE a = rawf[s] /\ rawf' = rawf) /\ a[1] >= 1
+      \* an empty slot holds nothing: free and delete give back everything that was acquired on the slot's behalf
+      [] op \in {"free", "delete"} -> a = Zero2 /\ acc' = [acc EXCEPT ![s] = Zero2] /\ rawf' = [rawf EXCEPT ![s] = None]
+TInit == OInit /\ l = 1 /\ nwin = 0 /\ acc = [s \in Slots |-> Zero2] /\ rawf = [s \in Slots |-> None] /\ seen = {}
 Consume == l <= Len(Tr) /\ l' = l + 1
-TProg == Ev.e = "Prog" /\ st' = [s \in Slots |-> "none"] /\ ty' = [s \in Slots |-> "-"] /\ cnt' = [s \in Slots |-> 0] /\ calls' = 0 /\ last' = [op |-> "Init"] /\ UNCHANGED nwin
+TProg == /\ Ev.e = "Prog" /\ st' = [s \in Slots |-> "none"] /\ ty' = [s \in Slots |-> "-"] /\ cnt' = [s \in Slots |-> 0] /\ calls' = 0 /\ last' = [op |-> "Init"]
+         /\ acc' = [s \in Slots |-> Zero2] /\ rawf' = [s \in Slots |-> None] /\ UNCHANGED <<nwin, seen>>
 TCall == /\ Ev.e = "Call" /\ Ev.damaged = 0 /\ Ev.dfree = 0
          /\ CASE Ev.op = "alloc"   -> Alloc(Ev.s, Ev.t, Ev.n)
               [] Ev.op = "new"     -> New(Ev.s, Ev.t, Ev.n)
@@ -37,11 +35,12 @@ TCall == /\ Ev.e = "Call" /\ Ev.damaged = 0 /\ Ev.dfree = 0
               [] Ev.op = "free"    -> Free(Ev.s) /\ ty[Ev.s] = Ev.t /\ cnt[Ev.s] = Ev.n
               [] Ev.op = "delete"  -> Delete(Ev.s) /\ ty[Ev.s] = Ev.t /\ cnt[Ev.s] = Ev.n
               [] OTHER -> FALSE
-         /\ Rule(Ev.op, Ev.t, Ev.n, <<Ev.dblocks, Ev.dbytes>>) /\ UNCHANGED nwin
+         /\ Account(Ev.s, Ev.op, <<Ev.dblocks, Ev.dbytes>>) /\ seen' = seen \cup {<<Ev.op, Ev.t, IF Ev.n = 0 THEN 0 ELSE 1>>} /\ UNCHANGED nwin
 TWindow == /\ Ev.e = "Window" /\ (\A s \in Slots : st[s] = "none") /\ Ev.live_blocks = 0 /\ Ev.live_bytes = 0 /\ Ev.damaged = 0 /\ Ev.dfree = 0
-           /\ nwin' = nwin + 1 /\ UNCHANGED ovars
+           /\ nwin' = nwin + 1 /\ UNCHANGED <<ovars, acc, rawf, seen>>
 TNext == Consume /\ (TProg \/ TCall \/ TWindow)            \* a "Crash" event matches no action
 TSpec == TInit /\ [][TNext]_tvars
 Accepted == TLCGet("stats").diameter - 1 = Len(Tr)
-Exercised == (l = Len(Tr) + 1) => nwin >= 1 /\ Calibrated
+\* every one of the six calls has been seen on every type, in the single and in the array form
+Exercised == (l = Len(Tr) + 1) => nwin >= 1 /\ \A t \in Types, op \in {"alloc", "init", "destroy", "free", "new", "delete"}, f \in {0, 1} : <<op, t, f>> \in seen
 =============================================================================
